@@ -818,6 +818,7 @@ class CallMixin:
         et = lst.ty.elem
         es = self.S.sort(et)
         if self.mode == "UNROLL":
+            self.assume(self.list_len(lst) <= self.bound, st)       # unwinding assumption
             s = z3.K(es, False)
             for i in range(self.bound):
                 s = z3.If(z3.IntVal(i) < self.list_len(lst), z3.Store(s, self.list_get(lst, z3.IntVal(i)), True), s)
@@ -863,6 +864,17 @@ class CallMixin:
         if src.ty.kind == "Set":
             src = self.set_to_list(src, st, node)
         return Val(T_ITER, None, py=("map", args[0], src))
+
+    def bi_reversed(self, args, kwargs, st, node):
+        src = args[0]
+        if src.ty.kind == "Iter":
+            src = self.realize(src, st, node)
+        return Val(T_ITER, None, py=("reversed", src))
+
+    def bi_zip(self, args, kwargs, st, node):
+        if len(args) != 2:
+            raise Unsupported("zip of %d iterables" % len(args), node)
+        return Val(T_ITER, None, py=("zip", args[0], args[1]))
 
     def bi_enumerate(self, args, kwargs, st, node):
         return Val(T_ITER, None, py=("enumerate", args[0]))
@@ -1011,6 +1023,7 @@ class CallMixin:
             et = self.elem_type_of_view(n, g, st)
         rt = TReal if et.kind in ("Real",) else TInt
         if self.mode == "UNROLL":
+            self.assume(n <= self.bound, st)       # unwinding assumption
             acc = z3.RealVal(0) if rt == TReal else z3.IntVal(0)
             for i in range(self.bound):
                 ii = z3.IntVal(i)
@@ -1104,15 +1117,23 @@ class CallMixin:
         E = lambda L, i: Val(lt.elem, self.list_get(L, i))
         if self.mode == "UNROLL":
             B = self.bound
+            self.assume(n <= B, st)       # unwinding assumption (bounded stand-in)
             perm = [self.fresh(z3.IntSort(), "perm") for _ in range(B)]
             for i in range(B):
                 ii = z3.IntVal(i)
                 self.assume(z3.Implies(ii < n, z3.And(perm[i] >= 0, perm[i] < n, *[
                     z3.Implies(perm[i] == j, self.list_get(r, ii) == self.list_get(src, z3.IntVal(j))) for j in range(B)])), st)
+            for i in range(B):
+                ii = z3.IntVal(i)
                 for j in range(i + 1, B):
                     jj = z3.IntVal(j)
-                    self.assume(z3.Implies(jj < n, z3.And(perm[i] != perm[j], le(E(r, ii), E(r, jj)),
-                                                          z3.Implies(keq(E(r, ii), E(r, jj)), perm[i] < perm[j]))), st)
+                    st.path.append(jj < n)       # keys are only evaluated for positions inside the list
+                    try:
+                        body = z3.And(perm[i] != perm[j], le(E(r, ii), E(r, jj)),
+                                      z3.Implies(keq(E(r, ii), E(r, jj)), perm[i] < perm[j]))
+                    finally:
+                        st.path.pop()
+                    self.assume(z3.Implies(jj < n, body), st)
             return r
         bvs = [b for b, _ in self.binders]
         pi = z3.Function("perm!%d" % next(self.counter), *([b.sort() for b in bvs] + [z3.IntSort(), z3.IntSort()]))
@@ -1228,6 +1249,15 @@ class CallMixin:
             if attr == "values":
                 return Val(T_ITER, None, py=("values", base))
             raise Unsupported("dict.%s" % attr, node)
+        if k == "Kwargs":
+            if attr == "get":
+                name = [t for t, c in self.S._lits.items() if args and args[0].ty.kind == "Str" and c.eq(args[0].z)]
+                if not name:
+                    raise Unsupported("kwargs.get with a non-literal key", node)
+                if name[0] in base.py:
+                    return base.py[name[0]]
+                return args[1] if len(args) > 1 else Val(TNone, self.S.none_val)
+            raise Unsupported("kwargs.%s" % attr, node)
         if k == "Date" and attr == "strftime":
             self.trusted.add("strftime: uninterpreted injective rendering of a datetime")
             f = self.uf("strftime", self.S.Date, self.S.Str, self.S.Str)
